@@ -114,10 +114,20 @@ std::string RunSeq(std::uint64_t init, const std::vector<OpIn>& ops) {
       }
     } else if (o.op == "cas_strong" || o.op == "cas_weak") {
       T e = C::From(o.exp);
-      g_force_spurious = o.spur ? 1 : 0;
+      const bool strong = o.op == "cas_strong";
+      // the strong form must ignore the fault layer's "fail spuriously" answer: it is asked to fail every time
+      g_force_spurious = (strong || o.spur) ? 1 : 0;
       g_weak_consulted = 0;
-      bool ok = o.op == "cas_strong" ? a.compare_exchange_strong(e, C::From(o.arg), sc, sc)
-                                     : a.compare_exchange_weak(e, C::From(o.arg), sc, sc);
+      // the three call forms (success + failure order, one order, defaulted order) rotate over position and operands
+      const auto form = (static_cast<std::uint64_t>(&o - ops.data()) + o.arg + o.exp) % 3;
+      bool ok = false;
+      if (form == 0) {
+        ok = strong ? a.compare_exchange_strong(e, C::From(o.arg), sc, sc) : a.compare_exchange_weak(e, C::From(o.arg), sc, sc);
+      } else if (form == 1) {
+        ok = strong ? a.compare_exchange_strong(e, C::From(o.arg), sc) : a.compare_exchange_weak(e, C::From(o.arg), sc);
+      } else {
+        ok = strong ? a.compare_exchange_strong(e, C::From(o.arg)) : a.compare_exchange_weak(e, C::From(o.arg));
+      }
       g_force_spurious = 0;
       ret = ok ? "true" : "false";
       exp = Hex(C::To(e));
